@@ -244,6 +244,46 @@ Section Proofs.
     unfold vitem in Hv. rewrite Forall_forall in Hv. apply Hv. eapply nth_opt_In; exact Hc.
   Qed.
 
+  (* the two node facts of rcb_rec_spec, stated separately for reuse (C04) *)
+  Lemma node_below a (xs l r : list keyed) (p : C) (L R : list (item * N)) :
+    Forall vkey xs -> Forall (fun x => nth_opt (co (snd x)) a = Some (fst x)) xs ->
+    Permutation (l ++ r) xs ->
+    Forall (fun y => ltb (fst y) p = true) l -> Forall (fun y => ltb (fst y) p = false) r ->
+    valid p = true ->
+    Permutation (map fst L) (map snd l) -> Permutation (map fst R) (map snd r) ->
+    forall x y, In x (map pit L) -> In y (map pit R) -> below C ltb a x y.
+  Proof.
+    intros Hvx Hc Hperm Hl Hr Hp PL PR x y Hx Hy.
+    apply in_map_iff in Hx, Hy. destruct Hx as ([itx idx] & <- & Hx), Hy as ([ity idy] & <- & Hy).
+    assert (Hix : In itx (map snd l)).
+    { eapply Permutation_in; [exact PL|]. apply (in_map fst) in Hx. exact Hx. }
+    assert (Hiy : In ity (map snd r)).
+    { eapply Permutation_in; [exact PR|]. apply (in_map fst) in Hy. exact Hy. }
+    apply in_map_iff in Hix, Hiy.
+    destruct Hix as ([cx itx'] & Ex & Hix), Hiy as ([cy ity'] & Ey & Hiy). cbn [snd] in Ex, Ey. subst.
+    assert (Hinx : In (cx, itx) xs) by (eapply Permutation_in; [exact Hperm|apply in_or_app; left; exact Hix]).
+    assert (Hiny : In (cy, ity) xs) by (eapply Permutation_in; [exact Hperm|apply in_or_app; right; exact Hiy]).
+    rewrite Forall_forall in Hc, Hl, Hr, Hvx.
+    exists cx, cy. unfold coord, pit. cbn [fst snd].
+    split; [exact (Hc _ Hinx)|]. split; [exact (Hc _ Hiny)|].
+    specialize (Hl _ Hix). specialize (Hr _ Hiy). cbn [fst] in Hl, Hr.
+    destruct (lt_negtrans cx p cy (Hvx _ Hinx) Hp (Hvx _ Hiny) Hl) as [A|A]; [exact A|congruence].
+  Qed.
+
+  Lemma node_disjoint k iter_id (L R : list (item * N)) :
+    Forall (in_heap k (2 * iter_id + 1)) L -> Forall (in_heap k (2 * iter_id + 2)) R ->
+    ids_disjoint C (map pit L) (map pit R).
+  Proof.
+    intros RL RR x y Hx Hy Heq.
+    apply in_map_iff in Hx, Hy. destruct Hx as (x' & <- & Hx), Hy as (y' & <- & Hy).
+    rewrite Forall_forall in RL, RR. specialize (RL _ Hx). specialize (RR _ Hy).
+    unfold in_heap, pit in *. cbn [snd] in Heq. rewrite Heq in RL.
+    set (P := (2 ^ N.of_nat k)%N) in *.
+    replace (2 * iter_id + 1 + 2)%N with (2 * iter_id + 3)%N in RL by lia.
+    replace (2 * iter_id + 2 + 1)%N with (2 * iter_id + 3)%N in RR by lia.
+    lia.
+  Qed.
+
   Theorem rcb_rec_spec : forall k fuel sched D its iter_id a sum bb asg,
     Forall vitem its ->
     rcb_rec fuel sched D k its iter_id a sum bb = Ok asg ->
